@@ -32,6 +32,25 @@ func recoverValueToError(e any) error {
 	return fmt.Errorf("unexpected error: %v", e)
 }
 
+// tryUserCallback runs a user-supplied callback that is invoked while an error
+// or a completion is being handled, and returns its panic as an error. Such a
+// panic cannot be routed through the observer's error callback (which is the
+// one running), so the caller forwards it downstream itself instead of leaving
+// the subscriber without any terminal notification.
+func tryUserCallback(cb func()) (err error) {
+	lo.TryCatchWithErrorValue(
+		func() error {
+			cb()
+			return nil
+		},
+		func(e any) {
+			err = newObserverError(recoverValueToError(e))
+		},
+	)
+
+	return err
+}
+
 func recoverUnhandledError(cb func()) {
 	lo.TryCatchWithErrorValue(
 		func() error {
